@@ -547,6 +547,15 @@ def run(ctx):
     r5_replay_after_accept(ctx)
     r7_fresh_log_is_loaded(ctx)
     r8_unchecked_only_on_empty_log(ctx)
+    # shared with C06-R1: the rewind half of a refused rewind-and-patch must remove
+    # exactly the pruned rows (owner-scoped, one row per record), or the rollback
+    # cannot restore the log it started from
+    from . import c06
+    c06.r1_sql_scoping(ctx)
+    ctx.rules[-1].id = "C07-R9"
+    for inst in ctx.rules[-1].instances:
+        inst["rule"] = "C07-R9"
+        inst["key"] = inst["key"].replace("C06-R1|", "C07-R9|", 1)
     if ctx.tier == "thorough" and ctx.config == "workspace":
         from .. import witness
         witness.run(ctx, 'C07-R6', 'rewind-and-patch and sync helpers cannot be called through a read guard', {'PatchNeedsWriteGuard': 'event_patch(req, &mut *read_guard)', 'SyncNeedsWriteGuard': 'sync_account(packet, &mut *read_guard)'})
